@@ -27,6 +27,18 @@ T = {
  "C19": ("exploration", "book-keeping contract of the twelve search heuristics via a recording proxy (objective = f(solution), best of evaluated, evaluations = calls, bounds, mirror, reproducibility).", "contract RAC with recording proxy on adversarial objectives"),
  "C20": ("proof", "every method of UnionFind and FenwickTree under contract; all obligations generated from the current source are discharged for all inputs/iterations (ghost representative map and potential; Fenwick bit lemmas at BV64); the refinement meta-theorem M0 lifts per-method obligations to all histories. A bounded model-based cross-check runs alongside and is not counted.", "deductive: pyvc VC generation from the real AST + z3 (BV64 lemmas), counter-model replay on the real code"),
 }
+PROVED = {
+ "C01": "proved: lit_var/lit_sign/lit_neg, solve_sat.unassign_to, solve_sat.assign (trail consistency)",
+ "C02": "proved: luby (termination, value), solve_sat.unassign_to/assign",
+ "C03": "proved: check_matrix_dims, simplex._extract", "C04": "proved: _most_fractional, _compute_gap, check_matrix_dims",
+ "C06": "proved for all Boolean assignments: _encode_eq_const/_ne_const/_ne_var/_at_most_one/_exactly_one",
+ "C09": "proved: network_simplex._residual", "C10": "proved: assignment_cost",
+ "C11": "proved: path validity of dijkstra/astar/bfs/dfs, bellman_ford distance certificate, reconstruct_path, _reconstruct_indexed",
+ "C13": "proved: kruskal structure via the UnionFind contract, check_positive, check_edge_nodes",
+ "C15": "proved: kcore filter (kcore_decomposition by assumed contract)", "C17": "proved: bp._most_fractional, bp._build_solution",
+ "C18": "proved: _compute_makespan",
+ "C19": "proved: Evaluator, anneal, tabu_search, lns, alns, evolve (book-keeping for all objectives, callbacks, seeds, iteration counts)",
+}
 NOTES = {"C20": "trusted: VC generator pyvc (own, ~2.5 kLoC), z3, builtin contract table entries used, A1/A2/A9, M0; component_sizes/get_components and the list-constructor of FenwickTree: see evidence (proved or bounded as stated there)"}
 m = json.load(open(os.path.join(V, "MANIFEST.json")))
 checks, na = [], []
@@ -36,7 +48,7 @@ for pid in sorted(T):
         checks.append({"property_id": pid, "quick_cmd": f"./check {pid} --tier quick", "thorough_cmd": f"./check {pid} --tier thorough",
                        "evidence_file": f"evidence/{pid}.json", "replay_cmd_template": f"./check {pid} --replay {{path}}",
                        "engine": "pyvc+rac", "level_claimed": {"category": level, "text": text, "design_ref": f"DESIGN.md 7 {pid}"},
-                       "level_note": NOTES.get(pid, BOUNDED_NOTE), "technique": tech})
+                       "level_note": NOTES.get(pid, (PROVED.get(pid, "no function of this property is proved") + ". " + BOUNDED_NOTE)), "technique": tech})
     else:
         na.append({"property_id": pid, "reason": "check not yet registered in this session (under construction); see DESIGN.md 7 " + pid})
 m["checks"], m["not_applicable"] = checks, na
